@@ -52,7 +52,7 @@ def run_density(setup, nprocs, G, perturbed, cplx, policy_seed):
         L = g.getLayout('v_parallel')
         blk = np.transpose(G, (0, 2, 1, 3))[L.starts[0]:L.ends[0], L.starts[1]:L.ends[1]]
         g._f[:] = blk
-        rho._f[:] = 7.5  # stale content must be overwritten
+        rho._f[:] = (7.5 - 3.25j) if cplx else 7.5  # stale content (as left by the in-place FFT of the previous step: non-real) must be overwritten
         df = DensityFinder(setup['quad_degree'], bs[3], eta, consts)
         if perturbed:
             df.getPerturbedRho(g, rho)
